@@ -337,16 +337,20 @@ ManagerNext(OptLists, m) ==
 Deviation(OptLists, m) ==
   \E r \in ID \cup {NoReq}, opts \in OptLists : AddOptsCollisionClearsPrimary(m, r, opts)
 
-HandleNext(AnnLists) ==
-  \/ \E h \in DOMAIN handles :
-        \/ HLen(h) \/ HPrimary(h) \/ HInfo(h) \/ HString(h) \/ HPublic(h)
-        \/ \E i \in -1 .. Len(handles[h]) + 1 : HEntry(h, i)
-        \/ \E c \in Ctors : Import(h, c)
-        \/ \E as \in AnnLists : ImportAnn(h, as)
+HandleOps(AnnLists) ==          \* calls on a live handle
+  \E h \in DOMAIN handles :
+     \/ HLen(h) \/ HPrimary(h) \/ HInfo(h) \/ HString(h) \/ HPublic(h)
+     \/ \E i \in -1 .. Len(handles[h]) + 1 : HEntry(h, i)
+     \/ \E c \in Ctors : Import(h, c)
+     \/ \E as \in AnnLists : ImportAnn(h, as)
+
+GlobalOps ==                    \* calls that involve no live object
   \/ \E op \in {"Len", "Entry", "Primary", "Public"} : HNil(op)
   \/ \E id \in ID, w \in BOOLEAN, mat \in MatIn : NewHandle(id, w, mat)
   \/ NewHandleFail
   \/ \E a \in Ann : SetAnnotationsNilMgr(a)
+
+HandleNext(AnnLists) == HandleOps(AnnLists) \/ GlobalOps
 
 NextNoDev(OptLists, AnnLists) == (\E m \in Mgr : ManagerNext(OptLists, m)) \/ HandleNext(AnnLists)
 Next(OptLists, AnnLists)      == NextNoDev(OptLists, AnnLists) \/ \E m \in Mgr : Deviation(OptLists, m)
@@ -381,6 +385,10 @@ PrimaryNeverLost ==
 (* which action changed the keyset although it returned an error *)
 OnlyTheDeviationBreaksIt ==
   [][(res'.err /\ \E m \in Mgr : mgr'[m].entries # mgr[m].entries) => res'.op = "AddOptsCollisionClearsPrimary"]_vars
+
+OnlyTheDeviationLosesPrimary ==
+  [][(\E m \in Mgr : ~(res'.op = "FromHandle" /\ res'.m = m) /\ M!HasPrimary(mgr[m].entries) /\ ~M!HasPrimary(mgr'[m].entries))
+        => res'.op = "AddOptsCollisionClearsPrimary"]_vars
 
 (* handles are values: the material/annotation track of a handle never changes either *)
 HandleMetaImmutable == [][IsPrefix(hx, hx')]_vars
